@@ -35,7 +35,8 @@ TRUSTED = ['A1 float == real', 'dependency contract np.fft.fft (length 8): X_k =
 ASSUMPTIONS = ['radii positive and pairwise distinct', 'the scripted convergence oracle ranges over every outcome of _check_convergence']
 NOT_DECIDED = ['coefficient accuracy within the reported error for non-polynomial f; "never degenerate/failed for functions analytic '
                'within distance 1.5" (behaviour of a heuristic search on rounded data)']
-BOUNDED = ['P: m = 8 only (n <= 6); m = 16 needs the algebraic numbers cos(pi/8), sin(pi/8) and is not attempted']
+BOUNDED = ['taylor-concrete: 95 (function, z0, options) cases x 11 values of n executed in floating point against the known series (n+1 coefficients; with default options never degenerate / failed; error <= 100*estimate + 100*rounding floor) -- a stand-in for the undecided accuracy clauses, never counted as proved; the complex-z0 Nyquist-coefficient cases that fail on the unchanged tree are known finding F16',
+           'P: m = 8 only (n <= 6); m = 16 needs the algebraic numbers cos(pi/8), sin(pi/8) and is not attempted']
 QUANTIFIED = 'polynomial coefficients, z0 (complex), radii: universally quantified; n enumerated exhaustively for M'
 
 
@@ -45,7 +46,7 @@ def enumerated(tier):
 
 def groups(tier):
     return [('num-coefficients', ('num',)), ('derivative-scaling', ('scale',)), ('failed-flag', ('failed',)), ('initialise', ('init',)),
-            ('polynomial[m=8]', ('poly',)), ('acceleration-stages', ('stages',)), ('documented-defaults', ('defaults',))]
+            ('polynomial[m=8]', ('poly',)), ('acceleration-stages', ('stages',)), ('documented-defaults', ('defaults',)), ('taylor-concrete', ('tconc',))]
 
 
 def functions_under_contract():
@@ -392,7 +393,19 @@ def run_defaults():
     return {}
 
 
+def run_tconc():
+    """bounded stand-in for the accuracy / never-degenerate clauses (undecided by contract): 19 functions with known series x 5
+    (z0, options) settings x 11 values of n, executed in floating point; one obligation per (function, z0, options)"""
+    from ndvc.concrete import taylor_cases
+    res = taylor_cases(mods()['fb'])
+    for name, (ok, detail) in sorted(res.items()):
+        solve.fact(name + ':n+1-coefficients,never-degenerate/failed-with-defaults,error<=100*estimate+100*floor', ok, kind='bounded', note=str(detail)[:300] if detail else '')
+    return dict(taylor_cases=len(res))
+
+
 def run_group(args):
+    if args[0] == 'tconc':
+        return run_tconc()
     if args[0] == 'stages':
         return run_stages()
     if args[0] == 'defaults':
@@ -401,5 +414,7 @@ def run_group(args):
 
 
 def replay_case(ob):
+    if ob['name'].startswith('taylor-concrete/'):
+        return dict(kind='C17.tconc', name=ob['name'].split('/', 1)[1].rsplit(':', 1)[0])
     g = ob['name'].split('/')[0]
     return dict(kind='C17.taylor', group=g)
